@@ -191,7 +191,7 @@ class IdStrStream(Stream):
                '//c/t/+4', '//c/t/NN', '//~c', '//c/~t', 'w:~s', '~u/*//c', 'w//c/t:a:b', '', '\n', '~', '/', ':',
                'task.1', 't.a.s.k.123', 'task.123:sel', '123/task', '123/t.a.s.k', '123/task:sel', 'task.cycle',
                '//task.123', 'task:sel.123', 'cycle/task', '12/a', 'a.1 ', ' .1', 'a.1: ', 'a/b/c//1/t/2',
-               'a/b//', 'a//b//c', 'a:b:c', '~u/w/', '~u:s', '~a~b', 'w// ', 'w//\n', '//c\n', '//\n']
+               'a/b//', 'a//b//c', 'a:b:c', 'w////c', 'w///c', '~u/w////c/t', 'w:s////c', '////c', '~u/w/', '~u:s', '~a~b', 'w// ', 'w//\n', '//c\n', '//\n']
         out = [{"id": s, "kind": "corpus"} for s in ids]
         # the finding: legacy cycle/task with a one-character cycle is not recognised
         out.append({"id": "1/foo", "kind": "legacy", "form": "slash", "fields": ["foo", "1", None]})
@@ -219,6 +219,10 @@ class IdStrStream(Stream):
                 s = s.replace('/', ' / ', 1)
             elif x < 0.32:
                 s = s.replace(':', ' : ', 1)
+            elif x < 0.40:
+                # doubled / tripled separators ("w////c", "w///c", "~u//w", "//c//t")
+                s = s.replace('//', rng.choice(['////', '///', '/', '// //']), 1) if '//' in s and rng.random() < 0.7 \
+                    else s.replace('/', '//', 1)
             cases.append({"id": s, "kind": "formatted"})
         for _ in range(500 if not big else 12000):
             t = valid_tokens(rng)
